@@ -47,7 +47,7 @@ func genC13() *rapid.Generator[C13Case] {
 						return bt.Mut{K: "delcol", Fam: rapid.SampledFrom(c.Fams).Draw(t, "f"), Qual: rapid.SampledFrom(quals).Draw(t, "q")}
 					}
 					return bt.Mut{K: "set", Fam: rapid.SampledFrom(c.Fams).Draw(t, "f"), Qual: rapid.SampledFrom(quals).Draw(t, "q"),
-						TS: rapid.SampledFrom([]int64{0, 1000, 2000, 3000, 4000, 9000, bt.MaxTS}).Draw(t, "ts"),
+						TS:  rapid.SampledFrom([]int64{0, 1000, 2000, 3000, 4000, 9000, bt.MaxTS}).Draw(t, "ts"),
 						Val: rapid.SampledFrom(c13Vals).Draw(t, "v")}
 				}), 1, 3).Draw(t, "muts")
 			} else {
